@@ -1,28 +1,24 @@
 import IsoVerif.Model.Core.OpsCover
 
 /-!
-C10, compiler side: inside the `SafeArgs` envelope (`selsSafe`) the keys the runtime reads are exactly
-the keys of the merged selection map (`read_eq_merge`, hence `merge_covers`); outside of it they are
-not (F12b: a variable inside an object argument of a client field; a default value of a client
-field's variable).
+C10, compiler side (after the repairs of F12b — the compiler substitutes variables inside objects too —
+and of the default values — the reader's Resolver node carries the default of every variable that is
+not passed): for validated selections (`selsSafe`: used variables are declared, defaults are
+constants) of a program whose client fields declare DISTINCT variable names (`progDistinct`) the keys
+the runtime reads are exactly the keys of the merged selection map (`read_eq_merge`, hence
+`merge_covers`).  Before the repairs they were not: `f12b_not_covered_before_repair` (old compiler
+functions `cSubstOld`, `cChildCtxOld`, `mergeKeysOld`), `default_not_covered_before_repair` (old
+reader `readKeysOld`).  `progDistinct` is needed: `dup_not_covered`.
 -/
 namespace IsoVerif.Ops.Cover
 
 /-! ### small helpers -/
 
-/-- a safe argument value: a declared variable, a literal, null, or a constant object -/
-def vSafe (declared : List Nat) : V → Bool
-  | .var n => declared.contains n
-  | .obj fs => (VL.firstVar fs).isNone
-  | _ => true
-
 theorem argsSafe_mem {declared : List Nat} {args : Args} (h : argsSafe declared args = true)
-    {p : Nat × V} (hm : p ∈ args) : vSafe declared p.2 = true := by
+    {p : Nat × V} (hm : p ∈ args) : V.varsIn declared p.2 = true := by
   unfold argsSafe at h
   rw [List.all_eq_true] at h
-  have := h p hm
-  obtain ⟨y, a⟩ := p
-  cases a <;> first | exact this | rfl
+  exact h p hm
 
 /-- the compiler context and the runtime environment give the declared names the same values -/
 def Agree (declared : List Nat) (c e : Ctx) : Prop := ∀ n ∈ declared, look c n = look e n
@@ -55,7 +51,50 @@ theorem look_identity (ds : List (Nat × Option V)) (m : Nat) (h : m ∈ ds.map 
       · exact absurd h.symm hx
       · exact h
 
-/-! ### constants are fixed by the runtime substitution -/
+/-! ### argument values -/
+
+mutual
+/-- (1) on a value whose variables are declared the two substitutions agree -/
+theorem rSubst_eq_cSubst {declared : List Nat} {c e : Ctx} (hag : Agree declared c e) :
+    ∀ (v : V), V.varsIn declared v = true → rSubst e v = cSubst c v
+  | .var n, h => by
+    simp only [V.varsIn, List.contains_iff_mem] at h
+    simp only [rSubst, cSubst]
+    exact (hag n h).symm
+  | .lit _, _ => by simp [rSubst, cSubst]
+  | .null, _ => by simp [rSubst, cSubst]
+  | .obj fs, h => by
+    simp only [V.varsIn] at h
+    simp only [rSubst, cSubst, rSubstL_eq_cSubstL hag fs h]
+theorem rSubstL_eq_cSubstL {declared : List Nat} {c e : Ctx} (hag : Agree declared c e) :
+    ∀ (fs : VL), VL.varsIn declared fs = true → rSubstL e fs = cSubstL c fs
+  | .nil, _ => by simp [rSubstL, cSubstL]
+  | .cons k v r, h => by
+    simp only [VL.varsIn, Bool.and_eq_true] at h
+    simp only [rSubstL, cSubstL, rSubst_eq_cSubst hag v h.1, rSubstL_eq_cSubstL hag r h.2]
+end
+
+mutual
+/-- the identity context fixes the values whose variables it declares -/
+theorem cSubst_identity (ds : List (Nat × Option V)) :
+    ∀ (v : V), V.varsIn (ds.map (·.1)) v = true → cSubst (identityCtx ds) v = v
+  | .var n, h => by
+    simp only [V.varsIn, List.contains_iff_mem] at h
+    simp only [cSubst, look_identity ds n h]
+  | .lit _, _ => by simp [cSubst]
+  | .null, _ => by simp [cSubst]
+  | .obj fs, h => by
+    simp only [V.varsIn] at h
+    simp only [cSubst, cSubstL_identity ds fs h]
+theorem cSubstL_identity (ds : List (Nat × Option V)) :
+    ∀ (fs : VL), VL.varsIn (ds.map (·.1)) fs = true → cSubstL (identityCtx ds) fs = fs
+  | .nil, _ => by simp [cSubstL]
+  | .cons k v r, h => by
+    simp only [VL.varsIn, Bool.and_eq_true] at h
+    simp only [cSubstL, cSubst_identity ds v h.1, cSubstL_identity ds r h.2]
+end
+
+/-! ### constants are fixed by both substitutions -/
 
 theorem orElse_none {α : Type} {a : Option α} {b : Unit → Option α}
     (h : a.orElse b = none) : a = none ∧ b () = none := by
@@ -79,73 +118,47 @@ theorem rSubstL_const (e : Ctx) : ∀ (fs : VL), VL.firstVar fs = none → rSubs
     simp only [rSubstL, rSubst_const e v h1, rSubstL_const e r h2]
 end
 
-/-! ### argument values -/
+mutual
+theorem cSubst_const (c : Ctx) : ∀ (v : V), V.firstVar v = none → cSubst c v = v
+  | .var n, h => by simp [V.firstVar] at h
+  | .lit _, _ => by simp [cSubst]
+  | .null, _ => by simp [cSubst]
+  | .obj fs, h => by
+    simp only [V.firstVar] at h
+    simp only [cSubst, cSubstL_const c fs h]
+theorem cSubstL_const (c : Ctx) : ∀ (fs : VL), VL.firstVar fs = none → cSubstL c fs = fs
+  | .nil, _ => by simp [cSubstL]
+  | .cons k v r, h => by
+    simp only [VL.firstVar] at h
+    obtain ⟨h1, h2⟩ := orElse_none h
+    simp only [cSubstL, cSubst_const c v h1, cSubstL_const c r h2]
+end
 
-/-- the value `child_variable_context` gives a variable that is passed the argument `a` -/
-def cArgVal (c : Ctx) (a : V) : V :=
-  match V.firstVar a with
-  | none => a
-  | some w => look c w
-
-/-- (1) on a safe argument the two substitutions agree -/
-theorem rSubst_eq_cSubst {declared : List Nat} {c e : Ctx} (hag : Agree declared c e)
-    {a : V} (ha : vSafe declared a = true) : rSubst e a = cSubst c a := by
-  cases a with
-  | var n =>
-    simp only [vSafe, List.contains_iff_mem] at ha
-    simp only [rSubst, cSubst]
-    exact (hag n ha).symm
-  | lit k => simp [rSubst, cSubst]
-  | null => simp [rSubst, cSubst]
-  | obj fs =>
-    simp only [vSafe, Option.isNone_iff_eq_none] at ha
-    simp only [rSubst, cSubst, rSubstL_const e fs ha]
-
-theorem cArgVal_eq_rSubst {declared : List Nat} {c e : Ctx} (hag : Agree declared c e)
-    {a : V} (ha : vSafe declared a = true) : cArgVal c a = rSubst e a := by
-  cases a with
-  | var n =>
-    simp only [vSafe, List.contains_iff_mem] at ha
-    simp only [cArgVal, V.firstVar, rSubst]
-    exact hag n ha
-  | lit k => simp [cArgVal, V.firstVar, rSubst]
-  | null => simp [cArgVal, V.firstVar, rSubst]
-  | obj fs =>
-    simp only [vSafe, Option.isNone_iff_eq_none] at ha
-    simp only [cArgVal, V.firstVar, ha, rSubst, rSubstL_const e fs ha]
-
-/-- pushing the child's value of a passed variable through the caller's context -/
-theorem cSubst_cArgVal_identity (c : Ctx) (ds : List (Nat × Option V)) {a : V}
-    (ha : vSafe (ds.map (·.1)) a = true) :
-    cSubst c (cArgVal (identityCtx ds) a) = cArgVal c a := by
-  cases a with
-  | var n =>
-    simp only [vSafe, List.contains_iff_mem] at ha
-    simp only [cArgVal, V.firstVar, look_identity ds n ha, cSubst]
-  | lit k => simp [cArgVal, V.firstVar, cSubst]
-  | null => simp [cArgVal, V.firstVar, cSubst]
-  | obj fs =>
-    simp only [vSafe, Option.isNone_iff_eq_none] at ha
-    simp only [cArgVal, V.firstVar, ha, cSubst]
+theorem defaultsConstant_mem {defs : List (Nat × Option V)} (h : defaultsConstant defs = true)
+    {p : Nat × Option V} (hm : p ∈ defs) {d : V} (hd : p.2 = some d) : V.firstVar d = none := by
+  unfold defaultsConstant at h
+  rw [List.all_eq_true] at h
+  have := h p hm
+  obtain ⟨x, dflt⟩ := p
+  simp only at hd
+  subst hd
+  simpa using this
 
 /-! ### child contexts -/
 
 def cChildVal (c : Ctx) (args : Args) (x : Nat) (dflt : Option V) : V :=
   match args.find? (·.1 == x) with
-  | some p => cArgVal c p.2
+  | some p => cSubst c p.2
   | none => dflt.getD .null
 
 theorem cChildCtx_cons (c : Ctx) (args : Args) (x : Nat) (dflt : Option V)
     (rest : List (Nat × Option V)) :
     cChildCtx c args ((x, dflt) :: rest) = (x, cChildVal c args x dflt) :: cChildCtx c args rest := by
-  simp only [cChildCtx, List.map_cons, cChildVal, cArgVal]
+  simp only [cChildCtx, List.map_cons, cChildVal]
   congr 1
   cases h : List.find? (fun x_1 => x_1.fst == x) args with
   | none => rfl
-  | some p =>
-    obtain ⟨y, a⟩ := p
-    simp only
-    cases V.firstVar a <;> rfl
+  | some p => rfl
 
 theorem look_cChildCtx (c : Ctx) (args : Args) (defs : List (Nat × Option V)) (n : Nat) :
     look (cChildCtx c args defs) n =
@@ -178,24 +191,132 @@ theorem look_rChildEnv (e : Ctx) (args : Args) (n : Nat) :
     · have : (x == n) = false := by simpa using hx
       simp only [hx, if_false, this, ih]
 
-theorem callSafe_mem {args : Args} {defs : List (Nat × Option V)} (h : callSafe args defs = true)
-    {p : Nat × Option V} (hm : p ∈ defs) (hnone : args.find? (·.1 == p.1) = none) : p.2 = none := by
-  unfold callSafe at h
-  rw [List.all_eq_true] at h
-  have := h p hm
-  obtain ⟨x, d⟩ := p
-  simp only at hnone
-  simp only [hnone, Option.isSome_none, Bool.false_or, Option.isNone_iff_eq_none] at this
-  exact this
+/-! the defaults the Resolver node appends -/
 
-/-- (3) the compiler's child context and the runtime's child environment agree on the callee's
-variables -/
+def dfltArgs (args : Args) (defs : List (Nat × Option V)) : Args :=
+  defs.filterMap fun (x, dflt) =>
+    match dflt with
+    | some d => if (args.find? (·.1 == x)).isSome then none else some (x, d)
+    | none => none
+
+theorem resolverArgs_eq (args : Args) (defs : List (Nat × Option V)) :
+    resolverArgs args defs = args ++ dfltArgs args defs := rfl
+
+theorem dfltArgs_cons_none (args : Args) (x : Nat) (rest : List (Nat × Option V)) :
+    dfltArgs args ((x, none) :: rest) = dfltArgs args rest := by
+  simp [dfltArgs]
+
+theorem dfltArgs_cons_passed (args : Args) (x : Nat) (d : V) (rest : List (Nat × Option V))
+    (h : (args.find? (·.1 == x)).isSome = true) :
+    dfltArgs args ((x, some d) :: rest) = dfltArgs args rest := by
+  simp only [dfltArgs, List.filterMap_cons, h, if_true]
+
+theorem dfltArgs_cons_missing (args : Args) (x : Nat) (d : V) (rest : List (Nat × Option V))
+    (h : args.find? (·.1 == x) = none) :
+    dfltArgs args ((x, some d) :: rest) = (x, d) :: dfltArgs args rest := by
+  simp [dfltArgs, h]
+
+theorem dfltArgs_names (args : Args) (defs : List (Nat × Option V)) (q : Nat × V)
+    (h : q ∈ dfltArgs args defs) : q.1 ∈ defs.map (·.1) := by
+  induction defs with
+  | nil => simp [dfltArgs] at h
+  | cons p defs ih =>
+    obtain ⟨x, dflt⟩ := p
+    rw [List.map_cons, List.mem_cons]
+    cases dflt with
+    | none =>
+      rw [dfltArgs_cons_none] at h
+      exact Or.inr (ih h)
+    | some d =>
+      cases hq : args.find? (·.1 == x) with
+      | some a =>
+        rw [dfltArgs_cons_passed _ _ _ _ (by rw [hq]; rfl)] at h
+        exact Or.inr (ih h)
+      | none =>
+        rw [dfltArgs_cons_missing _ _ _ _ hq, List.mem_cons] at h
+        rcases h with h | h
+        · exact Or.inl (by rw [h])
+        · exact Or.inr (ih h)
+
+theorem look_rChildEnv_notin (e : Ctx) (args : Args) (n : Nat)
+    (h : ∀ q ∈ args, q.1 ≠ n) : look (rChildEnv e args) n = .null := by
+  rw [look_rChildEnv]
+  have : args.find? (·.1 == n) = none := by
+    rw [List.find?_eq_none]
+    intro q hq
+    simpa using h q hq
+  rw [this]
+
+/-- the first (and, the names being distinct, only) declaration of `n` decides what the appended
+defaults say about a variable `n` that is not passed -/
+theorem look_dfltArgs (e : Ctx) (args : Args) (n : Nat) (hn : args.find? (·.1 == n) = none) :
+    ∀ (defs : List (Nat × Option V)), (defs.map (·.1)).Nodup →
+    look (rChildEnv e (dfltArgs args defs)) n =
+      match defs.find? (·.1 == n) with
+      | some p => (match p.2 with
+                   | some d => rSubst e d
+                   | none => .null)
+      | none => .null
+  | [], _ => rfl
+  | (x, dflt) :: rest, hnd => by
+    rw [List.map_cons, List.nodup_cons] at hnd
+    rw [List.find?_cons]
+    by_cases hx : x = n
+    · subst hx
+      simp only [beq_self_eq_true]
+      cases dflt with
+      | none =>
+        rw [dfltArgs_cons_none]
+        apply look_rChildEnv_notin
+        intro q hq hqx
+        exact hnd.1 (hqx ▸ dfltArgs_names args rest q hq)
+      | some d =>
+        rw [dfltArgs_cons_missing _ _ _ _ hn]
+        have hc : rChildEnv e ((x, d) :: dfltArgs args rest) =
+            (x, rSubst e d) :: rChildEnv e (dfltArgs args rest) := rfl
+        rw [hc, look_cons]
+        simp
+    · have hb : (x == n) = false := by simpa using hx
+      simp only [hb]
+      cases dflt with
+      | none =>
+        rw [dfltArgs_cons_none]
+        exact look_dfltArgs e args n hn rest hnd.2
+      | some d =>
+        cases hq : args.find? (·.1 == x) with
+        | some a =>
+          rw [dfltArgs_cons_passed _ _ _ _ (by rw [hq]; rfl)]
+          exact look_dfltArgs e args n hn rest hnd.2
+        | none =>
+          rw [dfltArgs_cons_missing _ _ _ _ hq]
+          have hc : rChildEnv e ((x, d) :: dfltArgs args rest) =
+              (x, rSubst e d) :: rChildEnv e (dfltArgs args rest) := rfl
+          rw [hc, look_cons]
+          simp only [hx, if_false]
+          exact look_dfltArgs e args n hn rest hnd.2
+
+theorem look_resolver_passed (e : Ctx) (args : Args) (defs : List (Nat × Option V)) (n : Nat)
+    {q : Nat × V} (hq : args.find? (·.1 == n) = some q) :
+    look (rChildEnv e (resolverArgs args defs)) n = rSubst e q.2 := by
+  rw [look_rChildEnv, resolverArgs_eq, List.find?_append, hq]
+  rfl
+
+theorem look_resolver_missing (e : Ctx) (args : Args) (defs : List (Nat × Option V)) (n : Nat)
+    (hq : args.find? (·.1 == n) = none) :
+    look (rChildEnv e (resolverArgs args defs)) n = look (rChildEnv e (dfltArgs args defs)) n := by
+  rw [look_rChildEnv, look_rChildEnv, resolverArgs_eq, List.find?_append, hq]
+  rfl
+
+/-- (3) the compiler's child context and the runtime's child environment (built from the Resolver
+node's arguments: the passed ones, then the defaults of the missing ones) agree on the callee's
+variables, when these have distinct names -/
 theorem child_agree {declared : List Nat} {c e : Ctx} (hag : Agree declared c e)
     {args : Args} (ha : argsSafe declared args = true)
-    {defs : List (Nat × Option V)} (hc : callSafe args defs = true) :
-    Agree (defs.map (·.1)) (cChildCtx c args defs) (rChildEnv e args) := by
+    {defs : List (Nat × Option V)} (hc : defaultsConstant defs = true)
+    (hnd : (defs.map (·.1)).Nodup) :
+    Agree (defs.map (·.1)) (cChildCtx c args defs) (rChildEnv e (resolverArgs args defs)) := by
   intro n hn
-  rw [look_cChildCtx, look_rChildEnv]
+  rw [look_cChildCtx]
   cases hf : defs.find? (·.1 == n) with
   | none =>
     rw [List.find?_eq_none] at hf
@@ -204,42 +325,58 @@ theorem child_agree {declared : List Nat} {c e : Ctx} (hag : Agree declared c e)
     exact absurd (by simp) (hf p hp)
   | some p =>
     have hpm := List.mem_of_find?_eq_some hf
-    have hpn : p.1 = n := by simpa using List.find?_some hf
     simp only [cChildVal]
     cases hq : args.find? (·.1 == n) with
     | none =>
-      have := callSafe_mem hc hpm (by rw [hpn]; exact hq)
-      simp [this]
+      rw [look_resolver_missing e args defs n hq, look_dfltArgs e args n hq defs hnd, hf]
+      simp only
+      cases hd : p.2 with
+      | none => rfl
+      | some d =>
+        simp only [Option.getD_some, rSubst_const e d (defaultsConstant_mem hc hpm hd)]
     | some q =>
       have hqm := List.mem_of_find?_eq_some hq
-      exact cArgVal_eq_rSubst hag (argsSafe_mem ha hqm)
+      rw [look_resolver_passed e args defs n hq]
+      exact (rSubst_eq_cSubst hag q.2 (argsSafe_mem ha hqm)).symm
 
+mutual
 /-- (2) transforming with the caller's context composes with the child context built under the
-caller's identity context -/
+caller's identity context — for every value, objects included -/
 theorem cSubst_comp (c : Ctx) (ds : List (Nat × Option V)) {args : Args}
     (ha : argsSafe (ds.map (·.1)) args = true)
-    {defs : List (Nat × Option V)} (hc : callSafe args defs = true) (v : V) :
-    cSubst c (cSubst (cChildCtx (identityCtx ds) args defs) v) = cSubst (cChildCtx c args defs) v := by
-  cases v with
-  | lit k => rfl
-  | null => rfl
-  | obj fs => rfl
-  | var m =>
+    {defs : List (Nat × Option V)} (hc : defaultsConstant defs = true) :
+    ∀ (v : V),
+      cSubst c (cSubst (cChildCtx (identityCtx ds) args defs) v) = cSubst (cChildCtx c args defs) v
+  | .lit _ => by simp [cSubst]
+  | .null => by simp [cSubst]
+  | .obj fs => by simp only [cSubst, cSubstL_comp c ds ha hc fs]
+  | .var m => by
     simp only [cSubst]
     rw [look_cChildCtx, look_cChildCtx]
     cases hf : defs.find? (·.1 == m) with
-    | none => rfl
+    | none => simp [cSubst]
     | some p =>
       have hpm := List.mem_of_find?_eq_some hf
-      have hpn : p.1 = m := by simpa using List.find?_some hf
       simp only [cChildVal]
       cases hq : args.find? (·.1 == m) with
       | none =>
-        have := callSafe_mem hc hpm (by rw [hpn]; exact hq)
-        simp [this]
+        cases hd : p.2 with
+        | none => simp [cSubst]
+        | some d =>
+          simp only [Option.getD_some, cSubst_const c d (defaultsConstant_mem hc hpm hd)]
       | some q =>
         have hqm := List.mem_of_find?_eq_some hq
-        exact cSubst_cArgVal_identity c ds (argsSafe_mem ha hqm)
+        simp only [cSubst_identity ds q.2 (argsSafe_mem ha hqm)]
+theorem cSubstL_comp (c : Ctx) (ds : List (Nat × Option V)) {args : Args}
+    (ha : argsSafe (ds.map (·.1)) args = true)
+    {defs : List (Nat × Option V)} (hc : defaultsConstant defs = true) :
+    ∀ (fs : VL),
+      cSubstL c (cSubstL (cChildCtx (identityCtx ds) args defs) fs) =
+        cSubstL (cChildCtx c args defs) fs
+  | .nil => by simp [cSubstL]
+  | .cons k v r => by
+    simp only [cSubstL, cSubst_comp c ds ha hc v, cSubstL_comp c ds ha hc r]
+end
 
 /-! ### keys -/
 
@@ -248,7 +385,7 @@ def pre (k : Key) (px : List Key × Key) : List Key × Key := (k :: px.1, px.2)
 
 theorem keyT_comp (c : Ctx) (ds : List (Nat × Option V)) {args : Args}
     (ha : argsSafe (ds.map (·.1)) args = true)
-    {defs : List (Nat × Option V)} (hc : callSafe args defs = true) (k : Key) :
+    {defs : List (Nat × Option V)} (hc : defaultsConstant defs = true) (k : Key) :
     keyT c (keyT (cChildCtx (identityCtx ds) args defs) k) = keyT (cChildCtx c args defs) k := by
   simp only [keyT, List.map_map]
   congr 1
@@ -259,7 +396,7 @@ theorem keyT_comp (c : Ctx) (ds : List (Nat × Option V)) {args : Args}
 
 theorem KT_comp (c : Ctx) (ds : List (Nat × Option V)) {args : Args}
     (ha : argsSafe (ds.map (·.1)) args = true)
-    {defs : List (Nat × Option V)} (hc : callSafe args defs = true) (px : List Key × Key) :
+    {defs : List (Nat × Option V)} (hc : defaultsConstant defs = true) (px : List Key × Key) :
     KT c (KT (cChildCtx (identityCtx ds) args defs) px) = KT (cChildCtx c args defs) px := by
   simp only [KT, List.map_map, keyT_comp c ds ha hc]
   congr 1
@@ -279,15 +416,7 @@ theorem keyT_keyC_identity (c : Ctx) (ds : List (Nat × Option V)) (n : Nat) {ar
   intro p hp
   have hs := argsSafe_mem ha hp
   obtain ⟨x, v⟩ := p
-  simp only [Function.comp]
-  congr 1
-  cases v with
-  | lit k => rfl
-  | null => rfl
-  | obj fs => rfl
-  | var m =>
-    simp only [vSafe, List.contains_iff_mem] at hs
-    simp only [cSubst, look_identity ds m hs]
+  simp only [Function.comp, cSubst_identity ds v hs]
 
 theorem keyR_eq_keyC {declared : List Nat} {c e : Ctx} (hag : Agree declared c e) (n : Nat)
     {args : Args} (ha : argsSafe declared args = true) : keyR e n args = keyC c n args := by
@@ -297,7 +426,7 @@ theorem keyR_eq_keyC {declared : List Nat} {c e : Ctx} (hag : Agree declared c e
   intro p hp
   have hs := argsSafe_mem ha hp
   obtain ⟨x, v⟩ := p
-  simp only [rSubst_eq_cSubst hag hs]
+  simp only [rSubst_eq_cSubst hag v hs]
 
 /-! ### unfolding the two traversals -/
 
@@ -344,7 +473,7 @@ theorem readKeys_client_none (prog : Prog) (fuel : Nat) (e : Ctx) (i : Nat) (a :
 theorem readKeys_client_some (prog : Prog) (fuel : Nat) (e : Ctx) (i : Nat) (a : Args) (rest : List S)
     (d : ClientDef) (h : prog[i]? = some d) :
     readKeys prog (fuel + 1) e (.client i a :: rest) =
-      readKeys prog fuel (rChildEnv e a) d.body ++ readKeys prog fuel e rest := by
+      readKeys prog fuel (rChildEnv e (resolverArgs a d.vars)) d.body ++ readKeys prog fuel e rest := by
   simp only [readKeys, h]
 
 theorem selsSafe_scalar (prog : Prog) (fuel : Nat) (dc : List Nat) (n : Nat) (a : Args) (rest : List S) :
@@ -365,7 +494,7 @@ theorem selsSafe_client_none (prog : Prog) (fuel : Nat) (dc : List Nat) (i : Nat
 theorem selsSafe_client_some (prog : Prog) (fuel : Nat) (dc : List Nat) (i : Nat) (a : Args)
     (rest : List S) (d : ClientDef) (h : prog[i]? = some d) :
     selsSafe prog (fuel + 1) dc (.client i a :: rest) =
-      (argsSafe dc a && (callSafe a d.vars && selsSafe prog fuel (d.vars.map (·.1)) d.body) &&
+      (argsSafe dc a && (defaultsConstant d.vars && selsSafe prog fuel (d.vars.map (·.1)) d.body) &&
         selsSafe prog fuel dc rest) := by
   simp only [selsSafe, h]
 
@@ -413,7 +542,21 @@ theorem merge_transform (prog : Prog) : ∀ (fuel : Nat) (c : Ctx) (ds : List (N
 
 /-! ### inside the envelope the reader reads exactly the keys of the merged map -/
 
-theorem read_eq_merge (prog : Prog) : ∀ (fuel : Nat) (declared : List Nat) (c e : Ctx)
+/-- the variables a client field declares have distinct names (validation guarantees it; needed because
+`cChildCtx` asks the FIRST declaration of a name for its default, the Resolver node's appended
+defaults the first declaration of that name that HAS a default — see `dup_not_covered`) -/
+def varsDistinct (defs : List (Nat × Option V)) : Bool := decide (defs.map (·.1)).Nodup
+def progDistinct (prog : Prog) : Bool := prog.all fun d => varsDistinct d.vars
+
+theorem progDistinct_get {prog : Prog} (h : progDistinct prog = true) {i : Nat} {d : ClientDef}
+    (hp : prog[i]? = some d) : (d.vars.map (·.1)).Nodup := by
+  unfold progDistinct at h
+  rw [List.all_eq_true] at h
+  have := h d (List.mem_of_getElem? hp)
+  simpa [varsDistinct] using this
+
+theorem read_eq_merge (prog : Prog) (hd : progDistinct prog = true) :
+    ∀ (fuel : Nat) (declared : List Nat) (c e : Ctx)
     (sels : List S), selsSafe prog fuel declared sels = true → Agree declared c e →
     readKeys prog fuel e sels = mergeKeys prog fuel c sels
   | 0, _, _, _, _, _, _ => rfl
@@ -423,90 +566,190 @@ theorem read_eq_merge (prog : Prog) : ∀ (fuel : Nat) (declared : List Nat) (c 
     | scalar n a =>
       rw [selsSafe_scalar, Bool.and_eq_true] at h
       rw [readKeys_scalar, mergeKeys_scalar, keyR_eq_keyC hag n h.1,
-        read_eq_merge prog fuel dc c e rest h.2 hag]
+        read_eq_merge prog hd fuel dc c e rest h.2 hag]
     | linked n a kids =>
       rw [selsSafe_linked, Bool.and_eq_true, Bool.and_eq_true] at h
       rw [readKeys_linked, mergeKeys_linked, keyR_eq_keyC hag n h.1.1,
-        read_eq_merge prog fuel dc c e rest h.2 hag,
-        read_eq_merge prog fuel dc c e kids h.1.2 hag]
+        read_eq_merge prog hd fuel dc c e rest h.2 hag,
+        read_eq_merge prog hd fuel dc c e kids h.1.2 hag]
     | client i a =>
       cases hp : prog[i]? with
       | none =>
         rw [selsSafe_client_none _ _ _ _ _ _ hp, Bool.and_eq_true] at h
         rw [readKeys_client_none _ _ _ _ _ _ hp, mergeKeys_client_none _ _ _ _ _ _ hp]
-        exact read_eq_merge prog fuel dc c e rest h.2 hag
+        exact read_eq_merge prog hd fuel dc c e rest h.2 hag
       | some d =>
         rw [selsSafe_client_some _ _ _ _ _ _ d hp, Bool.and_eq_true, Bool.and_eq_true,
           Bool.and_eq_true] at h
         rw [readKeys_client_some _ _ _ _ _ _ d hp, mergeKeys_client_some _ _ _ _ _ _ d hp,
-          read_eq_merge prog fuel dc c e rest h.2 hag,
+          read_eq_merge prog hd fuel dc c e rest h.2 hag,
           ← merge_transform prog fuel (cChildCtx c a d.vars) d.vars d.body h.1.2.2,
-          read_eq_merge prog fuel (d.vars.map (·.1)) (cChildCtx c a d.vars) (rChildEnv e a) d.body
-            h.1.2.2 (child_agree hag h.1.1 h.1.2.1)]
+          read_eq_merge prog hd fuel (d.vars.map (·.1)) (cChildCtx c a d.vars)
+            (rChildEnv e (resolverArgs a d.vars)) d.body
+            h.1.2.2 (child_agree hag h.1.1 h.1.2.1 (progDistinct_get hd hp))]
 
 /-- (A) inside the envelope the merged selection map of an entrypoint is the list of keys its reader
 reads (with the readers of the client fields it reaches) -/
-theorem read_eq_merge_entry (prog : Prog) (fuel : Nat) (vars : List (Nat × Option V)) (sels : List S)
+theorem read_eq_merge_entry (prog : Prog) (hd : progDistinct prog = true) (fuel : Nat)
+    (vars : List (Nat × Option V)) (sels : List S)
     (hsafe : selsSafe prog fuel (vars.map (·.1)) sels = true) :
     readKeys prog fuel (identityCtx vars) sels = mergeKeys prog fuel (identityCtx vars) sels :=
-  read_eq_merge prog fuel (vars.map (·.1)) (identityCtx vars) (identityCtx vars) sels hsafe
+  read_eq_merge prog hd fuel (vars.map (·.1)) (identityCtx vars) (identityCtx vars) sels hsafe
     (fun _ _ => rfl)
 
 /-- (A) every key read is a key of the merged map -/
-theorem merge_covers (prog : Prog) (fuel : Nat) (vars : List (Nat × Option V)) (sels : List S)
+theorem merge_covers (prog : Prog) (hd : progDistinct prog = true) (fuel : Nat)
+    (vars : List (Nat × Option V)) (sels : List S)
     (hsafe : selsSafe prog fuel (vars.map (·.1)) sels = true) :
     ∀ x ∈ readKeys prog fuel (identityCtx vars) sels, x ∈ mergeKeys prog fuel (identityCtx vars) sels := by
   intro x hx
-  rw [read_eq_merge_entry prog fuel vars sels hsafe] at hx
+  rw [read_eq_merge_entry prog hd fuel vars sels hsafe] at hx
   exact hx
 
-/-! ### (B) the envelope is needed -/
+/-! ### (B) F12b is inside the envelope now; it was a defect of the old compiler -/
 
 /-- F12b: field 0 declares `$f` (7) and selects `friend(filter: $f) { name }` -/
 def progF12b : Prog := [⟨[(7, none)], [.linked 1 [(2, .var 7)] [.scalar 3 []]]⟩]
 /-- the entrypoint declares `$v` (9) and calls field 0 with `f: {k: $v}` -/
 def selsF12b : List S := [.linked 4 [] [.client 0 [(7, .obj (.cons 5 (.var 9) .nil))]]]
 
-theorem f12b_not_covered :
-    ¬ (∀ x ∈ readKeys progF12b 5 (identityCtx [(9, none)]) selsF12b,
-        x ∈ mergeKeys progF12b 5 (identityCtx [(9, none)]) selsF12b) := by
+theorem f12b_safe : selsSafe progF12b 5 ([(9, (none : Option V))].map (·.1)) selsF12b = true := by
   decide
 
-theorem f12b_not_safe : selsSafe progF12b 5 ([(9, (none : Option V))].map (·.1)) selsF12b = false := by
+theorem f12b_covered :
+    ∀ x ∈ readKeys progF12b 5 (identityCtx [(9, none)]) selsF12b,
+      x ∈ mergeKeys progF12b 5 (identityCtx [(9, none)]) selsF12b :=
+  merge_covers progF12b (by decide) 5 [(9, none)] selsF12b f12b_safe
+
+/-! the compiler before the repair: only a top-level variable was substituted, and a non-constant
+argument of a client field was replaced by the caller's value of the first variable in it -/
+
+def cSubstOld (c : Ctx) : V → V
+  | .var n => look c n
+  | v => v
+
+def cChildCtxOld (c : Ctx) (args : Args) (defs : List (Nat × Option V)) : Ctx :=
+  defs.map fun (x, dflt) =>
+    match args.find? (·.1 == x) with
+    | some (_, a) =>
+      (match V.firstVar a with
+       | none => (x, a)
+       | some e => (x, look c e))
+    | none => (x, dflt.getD .null)
+
+def keyCOld (c : Ctx) (name : Nat) (args : Args) : Key :=
+  (name, args.map fun (x, a) => (x, cSubstOld c a))
+def keyTOld (c : Ctx) (k : Key) : Key := (k.1, k.2.map fun (x, a) => (x, cSubstOld c a))
+
+def mergeKeysOld (prog : Prog) : Nat → Ctx → List S → List (List Key × Key)
+  | 0, _, _ => []
+  | _ + 1, _, [] => []
+  | fuel + 1, c, s :: rest =>
+    (match s with
+     | .scalar n a => [([], keyCOld c n a)]
+     | .linked n a kids =>
+       let k := keyCOld c n a
+       ([], k) :: (mergeKeysOld prog fuel c kids).map fun (p, x) => (k :: p, x)
+     | .client i a =>
+       match prog[i]? with
+       | none => []
+       | some d =>
+         let cc := cChildCtxOld c a d.vars
+         (mergeKeysOld prog fuel (identityCtx d.vars) d.body).map
+           fun (p, x) => (p.map (keyTOld cc), keyTOld cc x)) ++
+    mergeKeysOld prog fuel c rest
+
+/-- F12b before the repair: the reader looks up `friend(filter: {k: $v})`, the merged map of the old
+compiler holds `friend(filter: $v)` (the reader is the current `readKeys`) -/
+theorem f12b_not_covered_before_repair :
+    ¬ (∀ x ∈ readKeys progF12b 5 (identityCtx [(9, none)]) selsF12b,
+        x ∈ mergeKeysOld progF12b 5 (identityCtx [(9, none)]) selsF12b) := by
   decide
+
+/-! ### default values: inside the envelope now; a defect of the old reader -/
 
 /-- field 0 declares `$f` (7) with the default `0` -/
 def progDefault : Prog := [⟨[(7, some (.lit 0))], [.linked 1 [(2, .var 7)] [.scalar 3 []]]⟩]
 /-- the entrypoint calls field 0 without arguments -/
 def selsDefault : List S := [.linked 4 [] [.client 0 []]]
 
-theorem default_not_covered :
-    ¬ (∀ x ∈ readKeys progDefault 5 (identityCtx []) selsDefault,
+theorem default_safe :
+    selsSafe progDefault 5 (([] : List (Nat × Option V)).map (·.1)) selsDefault = true := by
+  decide
+
+theorem default_covered :
+    ∀ x ∈ readKeys progDefault 5 (identityCtx []) selsDefault,
+      x ∈ mergeKeys progDefault 5 (identityCtx []) selsDefault :=
+  merge_covers progDefault (by decide) 5 [] selsDefault default_safe
+
+/-- the reader before the repair: the Resolver node carried the selection's arguments only -/
+def readKeysOld (prog : Prog) : Nat → Ctx → List S → List (List Key × Key)
+  | 0, _, _ => []
+  | _ + 1, _, [] => []
+  | fuel + 1, e, s :: rest =>
+    (match s with
+     | .scalar n a => [([], keyR e n a)]
+     | .linked n a kids =>
+       let k := keyR e n a
+       ([], k) :: (readKeysOld prog fuel e kids).map fun (p, x) => (k :: p, x)
+     | .client i a =>
+       match prog[i]? with
+       | none => []
+       | some d => readKeysOld prog fuel (rChildEnv e a) d.body) ++
+    readKeysOld prog fuel e rest
+
+/-- before the repair: the compiler applied the default `0`, the old reader looked up `null` -/
+theorem default_not_covered_before_repair :
+    ¬ (∀ x ∈ readKeysOld progDefault 5 (identityCtx []) selsDefault,
         x ∈ mergeKeys progDefault 5 (identityCtx []) selsDefault) := by
   decide
 
-theorem default_not_safe :
-    selsSafe progDefault 5 (([] : List (Nat × Option V)).map (·.1)) selsDefault = false := by
+/-! ### distinct variable names are needed -/
+
+/-- field 0 declares `$f` (7) twice, the second time with a default -/
+def progDup : Prog := [⟨[(7, none), (7, some (.lit 0))], [.scalar 3 [(2, .var 7)]]⟩]
+def selsDup : List S := [.client 0 []]
+
+theorem dup_safe : selsSafe progDup 5 (([] : List (Nat × Option V)).map (·.1)) selsDup = true := by
+  decide
+
+theorem dup_not_distinct : progDistinct progDup = false := by decide
+
+/-- the compiler takes the first declaration (no default: `null`), the Resolver node carries the
+default of the second one (`0`) -/
+theorem dup_not_covered :
+    ¬ (∀ x ∈ readKeys progDup 5 (identityCtx []) selsDup,
+        x ∈ mergeKeys progDup 5 (identityCtx []) selsDup) := by
   decide
 
 /-- a non-trivial program inside the envelope: field 1 declares 7, 8 (with a default, always passed)
-and 5 (no default, never passed: `null` on both sides) and selects nested linked fields; field 0
-calls field 1 with its own variable and a literal; the entrypoint (variable 9) selects a linked field
-with a constant object argument, under which it calls field 0 with its variable and field 1 with a
-literal and its variable. -/
+and 5 (a constant object as default, never passed: the default on both sides) and selects nested linked fields; field 0
+calls field 1 with its own variable and an object holding its variable; the entrypoint (variable 9)
+selects a linked field with a constant object argument, under which it calls field 0 with an object
+holding its variable (so field 1 sees an object nested in an object) and field 1 with a literal and
+its variable. -/
 def progOk : Prog :=
   [ ⟨[(6, none)],
-      [.scalar 10 [], .linked 11 [(2, .var 6)] [.client 1 [(7, .var 6), (8, .lit 3)], .scalar 12 []]]⟩,
-    ⟨[(7, none), (8, some (.lit 1)), (5, none)],
+      [.scalar 10 [],
+       .linked 11 [(2, .var 6)]
+         [.client 1 [(7, .var 6), (8, .obj (.cons 1 (.var 6) (.cons 2 (.lit 3) .nil)))], .scalar 12 []]]⟩,
+    ⟨[(7, none), (8, some (.lit 1)), (5, some (.obj (.cons 1 (.lit 7) .nil)))],
       [.linked 1 [(2, .var 7), (3, .var 8)] [.linked 13 [(4, .var 5)] [.scalar 3 [(2, .null)]]]]⟩ ]
 def selsOk : List S :=
-  [ .linked 4 [(1, .obj (.cons 5 (.lit 2) .nil))] [.client 0 [(6, .var 9)], .client 1 [(7, .lit 4), (8, .var 9)]],
+  [ .linked 4 [(1, .obj (.cons 5 (.lit 2) .nil))]
+      [.client 0 [(6, .obj (.cons 5 (.var 9) .nil))], .client 1 [(7, .lit 4), (8, .var 9)]],
     .scalar 14 [(1, .var 9)] ]
 
 example : selsSafe progOk 8 ([(9, (none : Option V))].map (·.1)) selsOk = true := by decide
 
 example : ∀ x ∈ readKeys progOk 8 (identityCtx [(9, none)]) selsOk,
     x ∈ mergeKeys progOk 8 (identityCtx [(9, none)]) selsOk :=
-  merge_covers progOk 8 [(9, none)] selsOk (by decide)
+  merge_covers progOk (by decide) 8 [(9, none)] selsOk (by decide)
+
+/-- neither the old compiler nor the old reader were right on this program -/
+example : ¬ (∀ x ∈ readKeys progOk 8 (identityCtx [(9, none)]) selsOk,
+    x ∈ mergeKeysOld progOk 8 (identityCtx [(9, none)]) selsOk) := by decide
+example : ¬ (∀ x ∈ readKeysOld progOk 8 (identityCtx [(9, none)]) selsOk,
+    x ∈ mergeKeys progOk 8 (identityCtx [(9, none)]) selsOk) := by decide
 
 end IsoVerif.Ops.Cover
